@@ -745,17 +745,34 @@ func retVals(rt *ssa.Return) ([]ssa.Value, bool) {
 		if !ok {
 			continue
 		}
-		var last ssa.Value
-		for _, in := range b.Instrs {
-			if in == ssa.Instruction(u) {
+		// the last store to the local before the load, in this block; when what was stored is itself a load of a
+		// result local (`issue = build(err); return nil, issue` with named results re-stores the result into itself),
+		// go on to the store that load sees
+		cur := ssa.Instruction(u)
+		curAl := al
+		for hop := 0; hop < 4; hop++ {
+			var last ssa.Value
+			for _, in := range b.Instrs {
+				if in == cur {
+					break
+				}
+				if st, ok := in.(*ssa.Store); ok && st.Addr == ssa.Value(curAl) {
+					last = st.Val
+				}
+			}
+			if last == nil {
 				break
 			}
-			if st, ok := in.(*ssa.Store); ok && st.Addr == ssa.Value(al) {
-				last = st.Val
-			}
-		}
-		if last != nil {
 			out[i] = last
+			u2, ok := last.(*ssa.UnOp)
+			if !ok || u2.Op != token.MUL || u2.Block() != b {
+				break
+			}
+			al2, ok := u2.X.(*ssa.Alloc)
+			if !ok {
+				break
+			}
+			cur, curAl = u2, al2
 		}
 	}
 	return out, true
@@ -840,4 +857,46 @@ func closureStoredToGlobal(fn *ssa.Function, global string) *ssa.Function {
 		return nil
 	}
 	return out
+}
+
+// condImpliesFieldTrue: does "cond has the value truth" imply that a load of the boolean field f (of any object) was
+// true? Direct load, negation, and a conjunction hoisted into a local (`caught := ctx.Exit && ctx.CanCatch; if caught`),
+// which is a phi of booleans: known true with every other edge the constant false means control came through the one
+// live edge, so the guards of that predecessor held and the edge's own value is true (dually for known false).
+func condImpliesFieldTrue(cond ssa.Value, truth bool, f *types.Var, depth int) bool {
+	if depth > 6 || cond == nil {
+		return false
+	}
+	switch c := cv(cond).(type) {
+	case *ssa.UnOp:
+		if c.Op == token.NOT {
+			return condImpliesFieldTrue(c.X, !truth, f, depth+1)
+		}
+		if _, lf := loadOfField(c); lf != nil && sameField(lf, f) {
+			return truth
+		}
+	case *ssa.Phi:
+		var live ssa.Value
+		var livePred *ssa.BasicBlock
+		n := 0
+		for i, e := range c.Edges {
+			if k, isK := constBool(e); isK && k != truth {
+				continue
+			}
+			live, livePred = e, c.Block().Preds[i]
+			n++
+		}
+		if n != 1 {
+			return false
+		}
+		for _, gd := range append(guardsOf(livePred), guardsOfEdge(livePred, c.Block())...) {
+			if gd.If.Cond != cond && condImpliesFieldTrue(gd.If.Cond, gd.True, f, depth+1) {
+				return true
+			}
+		}
+		if _, isK := constBool(live); !isK {
+			return condImpliesFieldTrue(live, truth, f, depth+1)
+		}
+	}
+	return false
 }
